@@ -72,3 +72,27 @@ CORPUS += [
         "if self.heights_need_update:\n    self._heights = self.transform(self._internal_heights.tensor)\n    self.heights_need_update = False",
         expect=[('C06.H', 'flags::')]),
 ]
+_ULH_OLD = """        leaf_heights = [None] * len(self._taxa)
+
+        dates = [taxon['date'] for taxon in self._taxa]
+        max_date = max(dates)
+
+        # time starts at 0
+        if min(dates) == 0.0:
+            for idx, taxon in enumerate(self._taxa):
+                leaf_heights[idx] = taxon['date']
+        # time is a year
+        else:
+            for idx, taxon in enumerate(self._taxa):
+                leaf_heights[idx] = max_date - taxon['date']
+
+        self.sampling_times = torch.tensor(leaf_heights)
+"""
+CORPUS += [
+    Mut('c06-tensor-form-any-date-zero', 'torchtree/evolution/tree_model.py', '', _ULH_OLD,
+        "        dates = torch.tensor([taxon['date'] for taxon in self._taxa], dtype=torch.float64)\n        if torch.any(dates == 0.0):\n            self.sampling_times = dates\n        else:\n            self.sampling_times = dates.max() - dates\n",
+        mode='text', expect=[('C06.C', 'TimeTreeModel.update_leaf_heights::dates ≤ 0 with the most recent one exactly 0')]),
+    Mut('c06-benign-tensor-form-earliest-date-zero', 'torchtree/evolution/tree_model.py', '', _ULH_OLD,
+        "        dates = torch.tensor([taxon['date'] for taxon in self._taxa], dtype=torch.float64)\n        if dates.min() == 0.0:\n            self.sampling_times = dates\n        else:\n            self.sampling_times = dates.max() - dates\n",
+        mode='text', benign=True),
+]
